@@ -123,11 +123,15 @@ def run(argv):
         i = i + 1
 
     argv = argv + extra
+    if verif.util.tracing():
+        verif.util.trace("CliSpliced", argv=list(argv[1:]), extra=list(extra))
 
     # Read command line arguments
     i = 1
     while(i < len(argv)):
         arg = argv[i]
+        if verif.util.tracing():
+            verif.util.trace("Token", pos=i, token=arg)
         if arg[0] == '-':
             # Process option
             if arg == "-nomargin":
@@ -318,6 +322,9 @@ def run(argv):
             ifiles.append(argv[i])
         i = i + 1
 
+    if verif.util.tracing():
+        verif.util.trace("Parsed", files=list(ifiles), metric=metric, type=plot_type, ofile=ofile,
+              axis=(None if axis is None else axis.name().lower()), agg=aggregator_name, bin_type=bin_type, acc=do_acc)
     if version:
         print("Version: " + verif.version.__version__)
         return
